@@ -218,6 +218,26 @@ func cmdChurn(args []string) {
 			open = append(open, c)
 		}
 	}
+	// ... and with established TLS connections that their clients reset a moment ago: the server may not have noticed
+	// yet, and closing such a connection fails (no close_notify can be sent); Stop has to complete all the same
+	var doomed []net.Conn
+	for i := 0; i < 8; i++ {
+		raw, err := net.DialTimeout("tcp", fmt.Sprintf("127.0.0.1:%d", cr.tlsp), time.Second)
+		if err != nil {
+			continue
+		}
+		tc := tls.Client(raw, &tls.Config{RootCAs: p.rootPool, ServerName: "localhost", Certificates: p.clients["ok"], MinVersion: tls.VersionTLS12})
+		raw.SetDeadline(time.Now().Add(2 * time.Second))
+		if tc.Handshake() == nil {
+			tc.Write(request("PING"))
+			bufio.NewReader(tc).ReadString('\n')
+		}
+		doomed = append(doomed, raw)
+	}
+	for _, raw := range doomed {
+		raw.(*net.TCPConn).SetLinger(0)
+		raw.Close()
+	}
 	rec.Emit(Ev{"ev": "call", "call": "Stop", "phase": "stopping"})
 	err = es.Stop()
 	errs = ""
